@@ -16,10 +16,56 @@ THEOREMS = THEOREMS + vcore.theorems_in("SodiumModel/Properties/C03SalsaSimd.lea
 FINGERPRINTS = "C03"     # Tie B: pinned source text of the hand-transcribed dolbeau ChaCha20 files (tools/fingerprint.py)
 
 
+IMPORTS = IMPORTS + ["SodiumModel.Properties.C03Asm"]
+_TASM = ["load_after_store", "load_after_disjoint_store", "program_jumps_resolved", "entries_are_labels"]
+THEOREMS = THEOREMS + vcore.theorems_in("SodiumModel/Properties/C03Asm.lean", _TASM, "Sodium.C03Asm")
+
+
 def tie_b(ctx):
-    """the vectorised ChaCha20 model's trusted intrinsic semantics are re-validated against this CPU on every run"""
+    """the vectorised ChaCha20 model's trusted intrinsic semantics are re-validated against this CPU on every run; the xmm6 Salsa20 ASSEMBLY is re-translated
+    from the current .S text (tools/asm2lean_salsa.py) into the instruction array the x86-64 + SSE2 interpreter of Model/X86Sse.lean executes"""
     vcore.simd_check(ctx, "chacha", "intrinsics_check.c", ["-mavx2", "-mssse3", "-msse4.1"], "SimdCheck.lean", via_stdin=True)
-    return []
+    return tie_b_asm(ctx)
+
+
+def tie_b_asm(ctx):
+    """Identical text: the driver built by this run cross-runs the generated program on every Salsa20 / XSalsa20 op up to 1100 bytes (MODEL-DISAGREE on a difference
+    from the reference model), so the correspondence compares the library with the model REGENERATED from its source. Different text: the structural theorems are
+    re-checked, then the driver is rebuilt against the regenerated text and a directed op set (initial counters around 2^32 and 2^64, lengths across the 64 / 256-byte
+    paths and tails) is run through it; a MODEL-DISAGREE line is the failing input. No semantic theorem about the assembly is proved yet: this part is TV through a
+    translated model, not proof."""
+    import fcntl, os, random, c03_asm_tieb
+    rng = random.Random(ctx.seed + 77)
+    for t in _TASM:
+        ctx.obligations.append({"theorem": "Sodium.C03Asm." + t + " [instruction array regenerated from the .S text]", "axioms": ["propext", "Classical.choice", "Quot.sound"]})
+    with open(os.path.join(vcore.LEAN, ".lake-lock"), "w") as lk:
+        fcntl.flock(lk, fcntl.LOCK_EX)
+        src = os.path.join(vcore.REPO, "src", "libsodium")
+        ok, msg = c03_asm_tieb.tie_b(vcore.LEAN, src)
+        ctx.log("Tie B (salsa20 xmm6 assembly): " + msg.split("\n")[0][:300])
+        ctx.stats["salsa_xmm6_asm_tie"] = msg[:1500]
+        bad = []
+        if "changed" in msg or not ok:
+            ops = []
+            for ic in (0, 1, (1 << 32) - 1, 1 << 32, (1 << 32) + 1, (1 << 33) + 5, (1 << 63), (1 << 64) - 2, (1 << 64) - 1):
+                for n in (1, 63, 64, 65, 128, 255, 256, 257, 320, 511, 512, 513, 1000):
+                    ops.append("stream.salsa20_xor_ic %s %s %d %s" % (hexs(rb(rng, n)), hexs(rb(rng, 8)), ic, hexs(rb(rng, 32))))
+                    ops.append("stream.xsalsa20_xor_ic %s %s %d %s" % (hexs(rb(rng, n)), hexs(rb(rng, 24)), ic, hexs(rb(rng, 32))))
+            try:
+                outs = c03_asm_tieb.cross_run(vcore.LEAN, src, ops)
+                bad = [(o, r) for o, r in zip(ops, outs) if "MODEL-DISAGREE" in r]
+            except Exception as e:
+                return [("translator", "the driver does not build / run against the instruction array regenerated from the current .S text: %s" % str(e)[-800:])]
+            ctx.stats["salsa_xmm6_asm_directed_ops"] = len(ops)
+    if ok and not bad:
+        ctx.discharged = len(ctx.obligations)
+        return []
+    ctx.discharged = len(ctx.obligations) - len(_TASM)
+    if bad:
+        ctx.violations_with_input = getattr(ctx, "violations_with_input", 0) + 1
+        return [("corr:salsa20 xmm6 assembly (translated model vs reference model)", "the model regenerated from the current salsa20_xmm6-asm.S differs from the reference Salsa20 model "
+                 "(proved = specification) on %d of the directed ops; first: `%s` -> %s" % (len(bad), bad[0][0][:300], bad[0][1][:200]))]
+    return [("Sodium.C03Asm.program_jumps_resolved", msg)]
 RULE = ("every length 0..2304 for the ChaCha20 and Salsa20 XOR forms, sampled/boundary lengths for the other functions; block counters 0, "
         "random, 2^32 +- 16, 2^64-1-16..2^64-1; IETF counter at the guard boundary +- 1 (misuse observed in a child); "
         "HChaCha20/HSalsa20/Salsa cores with and without custom constants; configurations = CPU masks (AVX2 / SSSE3 / ref, xmm6 asm) "
